@@ -77,13 +77,21 @@ def lookups(tracks) -> dict:
     ta = getattr(tracks, "track_annotator", None)
     if ta is None:
         return {}
+    def key(k):
+        # a key that is not a number (e.g. None left behind by a half-applied action) must show up
+        # in the comparison, not crash it
+        try:
+            return int(k)
+        except (TypeError, ValueError):
+            return repr(k)
+
     return {
         "tracklet": {
-            int(k): sorted(int(x) for x in v)
+            key(k): sorted(int(x) for x in v)
             for k, v in ta.tracklet_id_to_nodes.items()
         },
         "lineage": {
-            int(k): sorted(int(x) for x in v) for k, v in ta.lineage_id_to_nodes.items()
+            key(k): sorted(int(x) for x in v) for k, v in ta.lineage_id_to_nodes.items()
         },
         "max_tracklet": int(ta.max_tracklet_id),
         "max_lineage": int(ta.max_lineage_id),
